@@ -36,7 +36,7 @@ func rateErrName(err error) string {
 
 func showRate(rt limit.Rate, err error) string {
 	if err != nil {
-		return "err " + rateErrName(err)
+		return fmt.Sprintf("err %s %d %d", rateErrName(err), int64(rt.Interval), rt.Quantity)
 	}
 	return fmt.Sprintf("ok %d %d", int64(rt.Interval), rt.Quantity)
 }
